@@ -18,7 +18,7 @@ import menpo.landmark
 import menpo.base
 import menpo.transform.rbf
 import menpo.transform.piecewiseaffine.base
-from menpo.base import Copyable, LazyList
+from menpo.base import Copyable, LazyList, copy_landmarks_and_path
 from menpo.landmark import LandmarkManager
 from menpo.shape import PointCloud, TriMesh, PointUndirectedGraph, LabelledPointUndirectedGraph
 from menpo.image import Image, MaskedImage
@@ -30,14 +30,27 @@ RULE = (
     "(objects) one object of every concrete Copyable class found by walking Copyable.__subclasses__() - 8 shape "
     "classes with 0-3 landmark groups, 3 image classes, 12 homogeneous-family transforms, TransformChain, WithDims, "
     "ThinPlateSplines (3 kernels) / CachedPWA / PythonPWA before and after an apply, both RBF kernels, LandmarkManager, "
-    "LazyList, LinearVectorModel, MeanLinearVectorModel, PCAVectorModel and PCAModel (plain, reduced active count, "
-    "trimmed, after increment) - is built from drawn plain data, copied, and then probed: a drawn side (original or "
-    "copy) gets a sentinel written into a drawn writable buffer and 1-3 drawn public mutators applied; the other "
-    "side's deep digest must not move. Non-trivial: the object has >= 2 distinct reachable buffers or a mutator ran. "
+    "LazyList, LinearVectorModel, MeanLinearVectorModel, PCAVectorModel and PCAModel (built from samples, from components "
+    "or from a covariance matrix; plain, reduced active count, trimmed, after increment; PCAModel over point clouds, "
+    "images or partly masked images, the template with or without a landmark group) - is built from drawn plain data, "
+    "brought into a drawn read-only state (none / rebuilt with x.from_vector(x.as_vector()) so that its data is a "
+    "read-only view / one or all arrays frozen with flags.writeable = False), copied, and then probed: the memory-sharing "
+    "query must be empty, a write through the object the original is a view on must not reach the copy, and a drawn "
+    "side (original or copy) re-enables writing on its own arrays, gets a sentinel written into a drawn buffer and 1-3 "
+    "drawn public mutators applied (incl. the deprecated public *_inplace entry points and the inherited mapping "
+    "mutators of the landmark manager); the other side's deep digest must not move. Objects handed out as a copy / new "
+    "object by as_non_alignment, alignment pseudoinverse and LazyList.map / repeat / + / slicing are probed the same "
+    "way. Non-trivial: the object has >= 2 distinct reachable buffers or a mutator ran. "
     "(histories) 4-30 landmark-manager operations drawn as data and interpreted against a pool of managers and owners "
-    "(PointCloud, TriMesh, Image, MaskedImage), indices modulo pool size, group names arbitrary text incl. glob "
-    "metacharacters; an ordered-dict model of numpy copies (with one identity token per stored copy) is compared after "
-    "every step. Non-trivial: an assignment followed by a mutation of the assigned value, or a copy / owner assignment "
+    "(PointCloud, TriMesh, Image, MaskedImage, a third of them holding read-only data), indices modulo pool size, "
+    "group names arbitrary text incl. glob metacharacters, values of all 8 shape classes (a third holding read-only "
+    "arrays); operations: set, set of an own group, get, get None, delete, items, glob lookups, update (dict / pairs / "
+    "keywords / another manager, possibly refused part-way), setdefault, pop, popitem, clear, manager copy, owner copy, "
+    "assignment onto an owner, copy_landmarks_and_path, transform, refused sets, and in-place edits of assigned / popped "
+    "values and of fetched groups through any of their public arrays. An ordered-dict model of numpy copies of every "
+    "public array (with one identity token per stored copy) is compared after every step, and after every storing "
+    "step no public array of a stored group may share memory with another group, an owner's data or a caller-side "
+    "value. Non-trivial: an assignment followed by a mutation of the assigned value, or a copy / owner assignment "
     "followed by a mutation. Distinct = distinct canonical-JSON digest of the case."
 )
 ASSUMPTIONS = [
@@ -48,16 +61,25 @@ ASSUMPTIONS = [
     "sparse matrices are probed through their data buffer (writing indices / indptr would only corrupt the probed side); "
     "sharing of indices / indptr is still reported by the memory-sharing query",
     "manager[name] returns the stored object itself (edits through it are visible in that manager and nowhere else); "
-    "set / owner.landmarks = / copy / transform create new stored copies",
+    "set / update / setdefault of a new name / owner.landmarks = / copy_landmarks_and_path / copy / transform create new "
+    "stored copies; pop / popitem hand out the formerly stored object, which is detached from then on",
     "manager[None] / set under None / wrong dimension / non-PointCloud value: ValueError and no change, as the docstrings "
     "and messages state; lookups and deletes of a missing name: KeyError (mapping protocol)",
+    "the inherited mapping mutators follow collections.abc.MutableMapping: update stores item by item (a refused item "
+    "ends it, earlier items stay), popitem removes SOME held item (which end is not asserted), setdefault of a missing "
+    "name stores a copy (which object it returns is not asserted), None is never used as a key with them",
+    "a read-only array is a legal state of an object (as_vector views, copy=False constructors, flags set by the "
+    "owner); its owner may re-enable writing (ndarray.flags.writeable = True) or write through the base array - the "
+    "copy / stored landmark group must not see that",
     "glob lookups (keys_matching / items_matching) are compared against an independent matcher for patterns made of "
     "literals, '*', '?' and one plain character class; names themselves are arbitrary text",
     "CachedPWA's memo of its last apply (_iab, a tuple of arrays replaced - never written - by apply) is shared by copy(); "
     "the property quantifies transforms over parameter arrays and public mutators, so this is recorded as an event and "
     "not reported; every public mutator is still required to leave the other side's cache untouched",
     "PCA mutators stay inside their documented domain (integer component counts in 1..n_components, increments of >= 2 "
-    "samples of the right width)",
+    "samples of the right width, orthonormalisation against a model with fewer components than features)",
+    "the history sharing query looks at public data arrays only (coordinates, connectivity, colours, texture, adjacency, "
+    "label masks, pixels, mask): private memo slots shared between copies are not observable",
 ]
 
 # ------------------------------------------------------------------------------------------ discovery
@@ -102,12 +124,21 @@ def _lazy_f(scale, x):
     return np.asarray(x, dtype=float) * scale
 
 
+PCA_TEMPLATES = ["PointCloud", "PointCloud", "PointCloud+lm", "Image", "Image+lm", "MaskedImage", "MaskedImage+lm"]
+PCA_CTORS = ["samples", "samples", "components", "covariance"]
+
+
 @st.composite
 def s_model(draw, kind):
     c = {"kind": kind, "seed": draw(st.integers(0, 2**16))}
     if kind == "PCAModel":
         c["npts"] = draw(st.integers(2, 4))
         c["n"] = draw(st.integers(4, 7))
+        # template family of the instance-backed model: point clouds, images, masked images (partly masked), each
+        # optionally carrying a landmark group (the template is part of the model's reachable state)
+        c["tmpl"] = draw(st.sampled_from(PCA_TEMPLATES))
+        c["ishape"] = draw(st.lists(st.integers(2, 3), min_size=2, max_size=2))
+        c["ch"] = draw(st.integers(1, 2))
     else:
         c["f"] = draw(st.integers(3, 7))
         c["n"] = draw(st.integers(4, 8))
@@ -117,6 +148,8 @@ def s_model(draw, kind):
         c["centre"] = draw(st.booleans())
         c["state"] = draw(st.sampled_from(["plain", "active", "trimmed", "incremented", "trimmed+incremented"]))
         c["k"] = draw(st.integers(1, 3))
+        # which constructor: from samples, init_from_components, init_from_covariance_matrix
+        c["ctor"] = draw(st.sampled_from(PCA_CTORS))
     return c
 
 
@@ -156,8 +189,44 @@ def s_object(draw):
         c = {"fam": fam, "obj": draw(s_model(draw(st.sampled_from(MODEL_KINDS))))}
     c["side"] = draw(st.sampled_from(["orig", "copy"]))
     c["buf"] = draw(st.integers(0, 63))
+    # read-only state at copy time: "fv" = rebuilt with x.from_vector(x.as_vector()) (a read-only view on the source
+    # object's memory), "flag" = one drawn array frozen (flags.writeable = False), "flags" = all of them frozen
+    c["ro"] = draw(st.sampled_from(["none", "none", "none", "fv", "fv", "flag", "flags"]))
+    c["robuf"] = draw(st.integers(0, 63))
     c["ops"] = draw(st.lists(st.tuples(st.integers(0, 15), st.integers(0, 2**16)).map(list), min_size=1, max_size=3))
     return c
+
+
+def _pca_template_mask(c):
+    """Mask shared by all MaskedImage samples of a PCAModel case (at least two true pixels, at least one false)."""
+    shape = tuple(c.get("ishape", [2, 2]))
+    m = np.random.RandomState(c["seed"] + 17).rand(*shape) > 0.35
+    m.flat[0], m.flat[1], m.flat[-1] = True, True, False
+    return m
+
+
+def pca_samples(c, r, n):
+    """n fresh Vectorizable samples of the template family of a PCAModel case; the FIRST one (the one PCAModel keeps
+    as its template) carries the landmark group when the case asks for one."""
+    tmpl = c.get("tmpl", "PointCloud")
+    base, lm = tmpl.split("+")[0], tmpl.endswith("+lm")
+    out = []
+    for i in range(n):
+        if base == "PointCloud":
+            x = PointCloud(r.randn(c["npts"], 2) * 3)
+        elif base == "Image":
+            x = Image(r.randn(c["ch"], *c["ishape"]) * 3)
+        else:
+            x = MaskedImage(r.randn(c["ch"], *c["ishape"]) * 3, mask=_pca_template_mask(c))
+        if lm and i == 0:
+            x.landmarks["tmpl_group"] = PointCloud(np.round(r.rand(3, 2) * 128) / 64)
+        out.append(x)
+    return out
+
+
+def _orthonormal_rows(r, k, f):
+    q = np.linalg.qr(r.randn(f, k))[0].T
+    return np.ascontiguousarray(q[:k])
 
 
 def build_model(c):
@@ -167,14 +236,32 @@ def build_model(c):
         return LinearVectorModel(r.randn(c["k"], c["f"]))
     if kind == "MeanLinearVectorModel":
         return MeanLinearVectorModel(r.randn(c["k"], c["f"]), r.randn(c["f"]))
+    ctor = c.get("ctor", "samples")
     if kind == "PCAVectorModel":
         f = c["f"]
-        m = PCAVectorModel(r.randn(c["n"], f) * (1.0 + np.arange(f)), centre=c["centre"])
-        new = lambda: r.randn(3, f) * (1.0 + np.arange(f))  # noqa: E731
+        scale = 1.0 + np.arange(f)
+        if ctor == "samples":
+            m = PCAVectorModel(r.randn(c["n"], f) * scale, centre=c["centre"])
+        elif ctor == "components":
+            k = max(2, min(f - 1, c["n"] - 1))
+            m = PCAVectorModel.init_from_components(_orthonormal_rows(r, k, f), np.sort(r.rand(k) + 0.5)[::-1].copy(), r.randn(f), c["n"], c["centre"])
+        else:
+            a = r.randn(c["n"], f) * scale
+            a = a - a.mean(axis=0)
+            m = PCAVectorModel.init_from_covariance_matrix(a.T.dot(a) / (c["n"] - 1), r.randn(f), c["n"], centred=c["centre"])
     else:
-        f = 2 * c["npts"]
-        m = PCAModel([PointCloud(r.randn(c["npts"], 2) * 3) for _ in range(c["n"])], centre=c["centre"])
-        new = lambda: [PointCloud(r.randn(c["npts"], 2) * 3) for _ in range(3)]  # noqa: E731
+        if ctor == "samples":
+            m = PCAModel(pca_samples(c, r, c["n"]), centre=c["centre"])
+        else:
+            mean = pca_samples(c, r, 1)[0]
+            f = mean.n_parameters
+            if ctor == "components":
+                k = max(2, min(f - 1, c["n"] - 1))
+                m = PCAModel.init_from_components(_orthonormal_rows(r, k, f), np.sort(r.rand(k) + 0.5)[::-1].copy(), mean, c["n"], c["centre"])
+            else:
+                a = r.randn(c["n"], f) * 3
+                a = a - a.mean(axis=0)
+                m = PCAModel.init_from_covariance_matrix(a.T.dot(a) / (c["n"] - 1), mean, c["n"], centred=c["centre"])
     st_ = c["state"]
     k = max(1, min(c["k"], m.n_components - 1)) if m.n_components > 1 else 1
     if st_ == "active":
@@ -182,7 +269,10 @@ def build_model(c):
     if st_.startswith("trimmed"):
         m.trim_components(k)
     if st_.endswith("incremented"):
-        m.increment(new())
+        if kind == "PCAVectorModel":
+            m.increment(r.randn(3, c["f"]) * (1.0 + np.arange(c["f"])))
+        else:
+            m.increment(pca_samples(dict(c, tmpl=c.get("tmpl", "PointCloud").split("+")[0]), r, 3))
     return m
 
 
@@ -209,6 +299,49 @@ def build_object(case):
     if fam == "lazy":
         return LazyList.init_from_iterable([np.array(x, dtype=float) for x in oc["items"]], f=partial(_lazy_f, oc["scale"]))
     return build_model(oc)
+
+
+def _freezable(o):
+    return [(p, b) for p, b in digest.buffers(o) if isinstance(b, np.ndarray) and b.size and b.flags.writeable
+            and not rs.is_shared_by_design(p) and not _memo(p)]
+
+
+def build_subject(case):
+    """(object under test, base) - the object of the case brought into the drawn read-only state. `base` is the
+    object whose memory a from_vector(as_vector()) rebuild is a view on (None otherwise): writing into the base is a
+    legal way of changing the rebuilt object's data after it was copied."""
+    o = build_object(case)
+    ro = case.get("ro", "none")
+    if ro == "none":
+        return o, None
+    if ro == "fv":
+        fam = case["fam"]
+        if fam == "shape":
+            return o.from_vector(o.as_vector()), o
+        if fam == "image" and type(o) in (Image, menpo.image.BooleanImage):
+            return o.from_vector(o.as_vector(), copy=False), o
+        ro = "flag"
+    cand = _freezable(o)
+    if cand:
+        if ro == "flag":
+            cand = [cand[case.get("robuf", 0) % len(cand)]]
+        for _, b in cand:
+            b.flags.writeable = False
+    return o, None
+
+
+def thaw(o):
+    """The owner re-enables writing: every read-only array reachable from o becomes writable again (arrays whose
+    memory is owned by a read-only buffer cannot; they are counted and left alone). Returns (thawed, refused)."""
+    done = refused = 0
+    for p, b in digest.buffers(o):
+        if isinstance(b, np.ndarray) and not b.flags.writeable:
+            try:
+                b.flags.writeable = True
+                done += 1
+            except ValueError:
+                refused += 1
+    return done, refused
 
 
 def _warp_points(case, t):
@@ -298,14 +431,40 @@ def mutators_for(case, x, y=None):
             o._from_vector_inplace(v)
             return True
 
+        def fvi_public(o, s):
+            o.from_vector_inplace(rs_vector(s, o.n_parameters, o.as_vector().dtype))  # deprecated, still public
+            return True
+
+        def lm_update(o, s):
+            o.landmarks.update([("new", _small_pc(s, d)), ("upd", _small_pc(s + 1, d))])
+            return True
+
+        def lm_pop(o, s):
+            if not o.has_landmarks:
+                return False
+            keys = list(o.landmarks)
+            o.landmarks.pop(keys[s % len(keys)]).points[0, 0] -= 2.5
+            return True
+
+        def lm_clear(o, s):
+            if not o.has_landmarks:
+                return False
+            o.landmarks.clear()
+            return True
+
         out += [("landmarks.__setitem__", lm_set), ("landmarks.__delitem__", lm_del), ("landmarks[...].points edit", lm_edit),
-                ("landmarks =", lm_assign), ("_from_vector_inplace", fvi)]
+                ("landmarks =", lm_assign), ("_from_vector_inplace", fvi), ("from_vector_inplace", fvi_public),
+                ("landmarks.update", lm_update), ("landmarks.pop", lm_pop), ("landmarks.clear", lm_clear)]
         if fam == "shape":
             def tr_inplace(o, s):
                 o._transform_inplace(Translation(np.arange(1, d + 1) * 0.5).apply)
                 return True
 
-            out.append(("_transform_inplace", tr_inplace))
+            def apply_inplace(o, s):
+                Translation(np.arange(1, d + 1) * 0.25).apply_inplace(o)  # deprecated, still public
+                return True
+
+            out += [("_transform_inplace", tr_inplace), ("Transform.apply_inplace(shape)", apply_inplace)]
     elif fam == "homog":
         kind, d = oc["kind"], oc["d"]
 
@@ -344,7 +503,20 @@ def mutators_for(case, x, y=None):
                 o._from_vector_inplace(v)
                 return True
 
-            out.append(("_from_vector_inplace", fvi))
+            def _vec(o, s):
+                if "Rotation" in kind:
+                    return gen.build_unit_quaternion(list(np.random.RandomState(s).rand(4) + 0.1))
+                return rs_vector(s, o.n_parameters, "float64")
+
+            def fvi_public(o, s):
+                o.from_vector_inplace(_vec(o, s))  # deprecated, still public
+                return True
+
+            def cafvi(o, s):
+                o.compose_after_from_vector_inplace(_vec(o, s))
+                return True
+
+            out += [("_from_vector_inplace", fvi), ("from_vector_inplace", fvi_public), ("compose_after_from_vector_inplace", cafvi)]
         if kind in objs.ALIGN_KINDS:
             def set_target(o, s):
                 r = np.random.RandomState(s)
@@ -402,7 +574,40 @@ def mutators_for(case, x, y=None):
             o._transform_inplace(Translation(np.arange(1, d + 1) * 0.5).apply)
             return True
 
-        out += [("__setitem__", lm_set), ("__delitem__", lm_del), ("[...].points edit", lm_edit), ("_transform_inplace", tr_inplace)]
+        def lm_update(o, s):
+            o.update({"new": _small_pc(s, d), "upd": _small_pc(s + 1, d)})
+            return True
+
+        def lm_setdefault(o, s):
+            o.setdefault(["new", "sd"][s % 2], _small_pc(s, d)).points[0, 0] += 0.75
+            return True
+
+        def lm_pop(o, s):
+            keys = list(o)
+            if not keys:
+                return False
+            o.pop(keys[s % len(keys)]).points[0, 0] -= 2.5
+            return True
+
+        def lm_popitem(o, s):
+            if not len(o):
+                return False
+            o.popitem()[1].points[0, 0] -= 2.5
+            return True
+
+        def lm_clear(o, s):
+            if not len(o):
+                return False
+            o.clear()
+            return True
+
+        def apply_inplace(o, s):
+            Translation(np.arange(1, d + 1) * 0.25).apply_inplace(o)  # deprecated, still public
+            return True
+
+        out += [("__setitem__", lm_set), ("__delitem__", lm_del), ("[...].points edit", lm_edit), ("_transform_inplace", tr_inplace),
+                ("update", lm_update), ("setdefault", lm_setdefault), ("pop", lm_pop), ("popitem", lm_popitem), ("clear", lm_clear),
+                ("Transform.apply_inplace(manager)", apply_inplace)]
     elif fam == "lazy":
         def app(o, s):
             o._callables.append(partial(_lazy_f, 1.0, [float(s % 7)]))
@@ -427,8 +632,20 @@ def mutators_for(case, x, y=None):
             o.orthonormalize_inplace()
             return True
 
+        def ortho_against(o, s):
+            # documented domain: an other model with fewer components than features (plain linear models: the component
+            # counts must add up to at most n_features, else the documented ValueError); a PCA model may lose components
+            f, k = o.n_features, o.n_components
+            pca = kind.startswith("PCA")
+            k2 = 1 + s % 2
+            if (not pca and k + k2 > f) or k2 >= f:
+                return False
+            other = LinearVectorModel(_orthonormal_rows(np.random.RandomState(s), k2, f))
+            o.orthonormalize_against_inplace(other)
+            return True
+
         if kind in ("LinearVectorModel", "MeanLinearVectorModel"):
-            out += [("components =", comp_set), ("orthonormalize_inplace", ortho)]
+            out += [("components =", comp_set), ("orthonormalize_inplace", ortho), ("orthonormalize_against_inplace", ortho_against)]
         else:
             def nac(o, s):
                 o.n_active_components = 1 + s % o.n_components
@@ -443,12 +660,21 @@ def mutators_for(case, x, y=None):
             def inc(o, s):
                 r = np.random.RandomState(s)
                 if kind == "PCAModel":
-                    o.increment([PointCloud(r.randn(oc["npts"], 2) * 3) for _ in range(2)])
+                    o.increment(pca_samples(dict(oc, tmpl=oc.get("tmpl", "PointCloud").split("+")[0]), r, 2))
                 else:
                     o.increment(r.randn(2, oc["f"]) * (1.0 + np.arange(oc["f"])))
                 return True
 
-            out += [("n_active_components =", nac), ("trim_components", trim), ("increment", inc), ("components =", comp_set)]
+            def tmpl_lm(o, s):
+                t = getattr(o, "template_instance", None)
+                if t is None:
+                    return False
+                t.landmarks["tmpl_group" if s % 2 else "tmpl_new"] = _small_pc(s, t.n_dims)
+                return True
+
+            out += [("n_active_components =", nac), ("trim_components", trim), ("increment", inc), ("components =", comp_set),
+                    ("orthonormalize_inplace", ortho), ("orthonormalize_against_inplace", ortho_against),
+                    ("template_instance.landmarks.__setitem__", tmpl_lm)]
     return out
 
 
@@ -478,15 +704,99 @@ def sig_path(cls, path):
     return "%s:%s" % (cls, ".".join(comps[:1]))
 
 
+def pokeable(x):
+    """Writable arrays of x that the sentinel may overwrite: not the documented-shared point sets, not the CachedPWA
+    memo, and never the index arrays of a sparse matrix (overwriting those makes the matrix itself ill-formed)."""
+    return [(p, b) for p, b in rs.writable_buffers(x)
+            if not rs.is_shared_by_design(p) and not _memo(p) and not p.endswith((".indices", ".indptr", ".row", ".col"))]
+
+
+def _unshared(ctx, a, b, sig, what):
+    """No buffer / container of a is shared with b beyond the documented whitelist."""
+    ok = True
+    for pa, pb in digest.shared_buffers(a, b):
+        if _memo(pa) and _memo(pb):
+            continue
+        if not rs.sharing_allowed(pa, pb):
+            ctx.fail(sig + ":" + sig_path(type(a).__name__, pa), "%s: receiver%s and result%s share memory" % (what, pa, pb))
+            ok = False
+    return ok
+
+
+def derived_checks(case, o, ctx):
+    """Entry points documented to hand out a copy / a new object of the receiver: as_non_alignment ("a copy of this
+    transform without its alignment nature"), alignment pseudoinverse (a copy with a new matrix), LazyList.map / repeat /
+    + / slicing ("a new LazyList")."""
+    fam, oc = case["fam"], case["obj"]
+    if fam == "homog" and oc["kind"] in objs.ALIGN_KINDS:
+        from menpo.transform.base.alignment import Alignment
+
+        d_o = rs.ndigest(o)
+        na = o.as_non_alignment()
+        ctx.event("derived=as_non_alignment")
+        ctx.expect(not isinstance(na, Alignment), "as_non_alignment.still_alignment:" + oc["kind"], lambda: type(na).__name__)
+        ctx.expect(na.h_matrix.shape == o.h_matrix.shape and np.array_equal(na.h_matrix, o.h_matrix), "as_non_alignment.matrix_differs:" + oc["kind"], "")
+        if _unshared(ctx, o, na, "as_non_alignment.shares_buffer", "as_non_alignment()"):
+            for p, bf in pokeable(na):
+                rs.poke(bf)
+            dd = rs.ndiff(d_o, rs.ndigest(o))
+            ctx.expect(dd is None, "as_non_alignment.write_reaches_receiver:" + oc["kind"], lambda: repr(dd))
+        pi = o.pseudoinverse()
+        ctx.event("derived=alignment.pseudoinverse")
+        ctx.expect(type(pi) is type(o), "pseudoinverse.class:" + oc["kind"], lambda: type(pi).__name__)
+        if _unshared(ctx, o, pi, "pseudoinverse.shares_buffer", "pseudoinverse()"):
+            pi.h_matrix[0, -1] += 3.0
+            dd = rs.ndiff(d_o, rs.ndigest(o))
+            ctx.expect(dd is None, "pseudoinverse.write_reaches_receiver:" + oc["kind"], lambda: repr(dd))
+    elif fam == "lazy":
+        items = [_lazy_f(oc["scale"], x) for x in oc["items"]]
+        n = len(items)
+        k, seed = case["ops"][0]
+        which = ["map", "map_list", "repeat", "add_lazy", "add_list", "slice", "index_list"][k % 7]
+        ctx.event("derived=LazyList.%s" % which)
+        lo, hi = sorted([seed % (n + 1), (seed // 7) % (n + 1)])
+        if which == "map":
+            res, want = o.map(partial(_lazy_f, 2.0)), [x * 2.0 for x in items]
+        elif which == "map_list":
+            res, want = o.map([partial(_lazy_f, float(i + 1)) for i in range(n)]), [x * float(i + 1) for i, x in enumerate(items)]
+        elif which == "repeat":
+            rep = 1 + seed % 3
+            res, want = o.repeat(rep), [x for x in items for _ in range(rep)]
+        elif which == "add_lazy":
+            res, want = o + o, items + items
+        elif which == "add_list":
+            extra = [np.array([float(seed % 5)])] * (seed % 3)
+            res, want = o + extra, items + extra
+        elif which == "slice":
+            res, want = o[lo:hi], items[lo:hi]
+        else:
+            idx = [(seed + 3 * j) % n for j in range(min(n, 3))] if n else []
+            res, want = o[idx], [items[i] for i in idx]
+        ctx.expect(isinstance(res, LazyList) and res is not o, "lazylist.%s.not_a_new_list" % which, lambda: type(res).__name__)
+        if isinstance(res, LazyList):
+            ctx.expect(res._callables is not o._callables, "lazylist.%s.shares_callables_list" % which, "")
+            ctx.expect(len(res) == len(want) and all(np.array_equal(res[i], want[i]) for i in range(len(want))), "lazylist.%s.items" % which, lambda: "%d items, want %d" % (len(res), len(want)))
+            res._callables.append(partial(_lazy_f, 1.0, [0.0]))
+            if len(res) > 1:
+                res._callables.pop(0)
+            ctx.expect(len(o) == n and all(np.array_equal(o[i], items[i]) for i in range(n)), "lazylist.%s.edit_of_result_reaches_receiver" % which, "")
+
+
 def c_object(case, ctx):
     fam = case["fam"]
-    o = build_object(case)
+    ro = case.get("ro", "none")
+    o, base = build_subject(case)
     cls = type(o).__name__
     ctx.event("class=%s" % cls)
+    n_frozen = len(rs.frozen_buffers(o))
+    ctx.event("read-only arrays at copy time: %s" % ("none" if not n_frozen else "some (%s)" % ("from_vector view" if base is not None else ro if ro != "none" else "constructor")))
     if fam == "warp":
         ctx.event("%s applied=%s" % (cls, case["applied"]))
     if fam == "model" and "state" in case["obj"]:
         ctx.event("%s state=%s" % (cls, case["obj"]["state"]))
+        ctx.event("%s ctor=%s" % (cls, case["obj"].get("ctor", "samples")))
+        if cls == "PCAModel":
+            ctx.event("PCAModel template=%s" % case["obj"].get("tmpl", "PointCloud"))
     d_o = rs.ndigest(o)
     c = o.copy()
     # 1. same type, equal state, original untouched by the act of copying
@@ -513,8 +823,21 @@ def c_object(case, ctx):
     side = case["side"]
     x, y = (o, c) if side == "orig" else (c, o)
     ctx.event("mutated side=%s" % side)
+    if base is not None:
+        # the rebuilt original is a view on `base`: a write through the base moves the original, never the copy
+        d_c = rs.ndigest(c)
+        for p, b in pokeable(base):
+            rs.poke(b)
+        dd = rs.ndiff(d_c, rs.ndigest(c))
+        if dd is not None:
+            ctx.fail("write.through_base_visible_in_copy:" + sig_path(cls, dd[0]), "wrote into the object the original was rebuilt from (from_vector(as_vector())); the copy changed at %r" % (dd,))
     d_y = rs.ndigest(y)
-    cand = [(p, b) for p, b in rs.writable_buffers(x) if not rs.is_shared_by_design(p) and not _memo(p) and not p.endswith((".indices", ".indptr", ".row", ".col"))]
+    thawed, refused = thaw(x)  # the owner re-enables writing on its own arrays
+    if thawed:
+        ctx.event("thawed read-only arrays before writing")
+    if refused:
+        ctx.event("read-only array that cannot be made writable")
+    cand = pokeable(x)
     ran = False
     if cand:
         p, b = cand[case["buf"] % len(cand)]
@@ -523,10 +846,11 @@ def c_object(case, ctx):
         if dd is not None:
             ctx.fail("write.visible_in_other:" + sig_path(cls, p), "wrote into %s%s; the %s changed at %r" % (side, p, "copy" if side == "orig" else "original", dd))
     # public mutators on a second, freshly built pair (the sentinel above may have corrupted the probed side)
-    o2 = build_object(case)
+    o2, base2 = build_subject(case)
     c2 = o2.copy()
     x, y = (o2, c2) if side == "orig" else (c2, o2)
     d_y = rs.ndigest(y)
+    thaw(x)
     muts = mutators_for(case, x, y)
     for k, seed in case["ops"]:
         if not muts:
@@ -544,6 +868,8 @@ def c_object(case, ctx):
         for pa, pb in digest.shared_buffers(x, y):
             if not (rs.sharing_allowed(pa, pb) or (_memo(pa) and _memo(pb))):
                 ctx.fail("mutator.created_sharing:" + sig_path(cls, pa), "after the mutators %s%s and other%s share memory" % (side, pa, pb))
+    if not ctx.fails and ro == "none":
+        derived_checks(case, build_object(case), ctx)
     ctx.nontrivial(n_bufs >= 2 or ran)
 
 
@@ -558,17 +884,24 @@ def s_name():
 
 @st.composite
 def s_lshape(draw, d=None):
-    """Small landmark shape spec."""
+    """Landmark shape spec: mostly small chain-connected shapes; one in four is an arbitrary shape of any of the 8
+    concrete classes (objs.shape_case). "ro": the value holds read-only arrays when it is assigned ("fv" = rebuilt
+    with from_vector(as_vector()), "flags" = every array frozen)."""
     if d is None:
         d = draw(st.sampled_from([2, 2, 2, 3]))
+    ro = draw(st.sampled_from(["none", "none", "none", "fv", "flags"]))
+    if draw(st.integers(0, 3)) == 0:
+        return {"kind": "full", "d": d, "case": draw(objs.shape_case(d=d, with_landmarks=False, n_min=3, n_max=5)), "ro": ro}
     n = draw(st.integers(1, 4))
     kind = draw(st.sampled_from(["PointCloud", "PointCloud", "PointUndirectedGraph", "LabelledPointUndirectedGraph", "TriMesh"]))
     if kind == "TriMesh" and n < 3:
         kind = "PointCloud"
-    return {"kind": kind, "d": d, "pts": draw(st.lists(st.lists(gen.q(0, 6, 64), min_size=d, max_size=d), min_size=n, max_size=n))}
+    return {"kind": kind, "d": d, "pts": draw(st.lists(st.lists(gen.q(0, 6, 64), min_size=d, max_size=d), min_size=n, max_size=n)), "ro": ro}
 
 
-def build_lshape(spec):
+def _build_lshape_plain(spec):
+    if spec["kind"] == "full":
+        return objs.build_shape(spec["case"])
     pts = np.array(spec["pts"], dtype=float)
     n = pts.shape[0]
     k = spec["kind"]
@@ -589,16 +922,31 @@ def build_lshape(spec):
     return LabelledPointUndirectedGraph(pts, adj, l2m)
 
 
+def build_lshape(spec):
+    sh = _build_lshape_plain(spec)
+    ro = spec.get("ro", "none")
+    if ro == "fv":
+        sh = sh.from_vector(sh.as_vector())  # .points is now a read-only view (its base array stays alive with it)
+    elif ro == "flags":
+        for _, b in _freezable(sh):
+            b.flags.writeable = False
+    return sh
+
+
+UPDATE_FORMS = ["dict", "pairs", "kwargs", "manager"]
+
+
 @st.composite
 def s_history(draw):
     owners = []
     for _ in range(draw(st.integers(1, 3))):
         k = draw(st.sampled_from(["PointCloud", "TriMesh", "Image", "MaskedImage", "PointCloud3", "TriMesh3"]))
-        owners.append({"kind": k, "seed": draw(st.integers(0, 999))})
+        owners.append({"kind": k, "seed": draw(st.integers(0, 999)), "ro": draw(st.sampled_from([False, False, True]))})
     n_steps = draw(st.integers(4, 30))
     steps = []
     kinds = ["set", "set", "set", "set_own_group", "get", "get_none", "del", "query", "copy", "assign", "assign", "mutate_assigned", "mutate_assigned",
-             "mutate_handle", "mutate_handle", "transform", "set_wrong_dim", "set_none", "set_bad_type", "glob", "get_missing"]
+             "mutate_assigned", "mutate_handle", "mutate_handle", "mutate_handle", "transform", "set_wrong_dim", "set_none", "set_bad_type", "glob",
+             "get_missing", "update", "update", "setdefault", "pop", "popitem", "clear", "copy_owner", "copy_owner", "clp"]
     for _ in range(n_steps):
         k = draw(st.sampled_from(kinds))
         slot = draw(st.integers(0, 31))
@@ -607,12 +955,14 @@ def s_history(draw):
             steps.append([k, slot, draw(s_name()), draw(s_lshape()), draw(st.integers(0, 31))])
         elif k in ("get", "del", "get_missing", "set_own_group"):
             steps.append([k, slot, draw(s_name()), draw(st.integers(0, 31))])
-        elif k in ("get_none", "query", "copy"):
+        elif k in ("get_none", "query", "copy", "popitem", "clear", "copy_owner"):
             steps.append([k, slot])
-        elif k == "assign":
+        elif k in ("assign", "clp"):
             steps.append([k, slot, draw(st.integers(0, 31))])
         elif k in ("mutate_assigned", "mutate_handle"):
-            steps.append([k, draw(st.integers(0, 31)), draw(st.integers(0, 31)), draw(st.integers(0, 2)), draw(gen.qnz(-2, 2, 1 / 16, 64)), draw(st.booleans())])
+            # [pool index, row, column, delta, also flip a label mask, which public array (0 mod 3: a non-coordinate one)]
+            steps.append([k, draw(st.integers(0, 31)), draw(st.integers(0, 31)), draw(st.integers(0, 2)), draw(gen.qnz(-2, 2, 1 / 16, 64)), draw(st.booleans()),
+                          draw(st.integers(0, 31))])
         elif k == "transform":
             steps.append([k, slot, draw(st.sampled_from(["Translation", "Affine"])), draw(st.integers(0, 999))])
         elif k in ("set_wrong_dim", "set_bad_type"):
@@ -621,6 +971,16 @@ def s_history(draw):
             steps.append([k, slot, draw(s_lshape())])
         elif k == "glob":
             steps.append([k, slot, "".join(draw(st.lists(st.sampled_from(PATTERN_ATOMS), min_size=0, max_size=4)))])
+        elif k == "update":
+            # items usually of one dimensionality (drawn per step), sometimes mixed: update is then refused part-way
+            d = draw(st.sampled_from([2, 2, 2, 3]))
+            mixed = draw(st.integers(0, 4)) == 0
+            items = [[draw(s_name()), draw(s_lshape(d=None if mixed else d))] for _ in range(draw(st.integers(0, 3)))]
+            steps.append([k, slot, draw(st.sampled_from(UPDATE_FORMS)), items, draw(st.integers(0, 31))])
+        elif k == "setdefault":
+            steps.append([k, slot, draw(s_name()), draw(s_lshape()), draw(st.integers(0, 31))])
+        elif k == "pop":
+            steps.append([k, slot, draw(s_name()), draw(st.integers(0, 31)), draw(st.booleans())])
     return {"owners": owners, "steps": steps}
 
 
@@ -670,49 +1030,78 @@ class _Tok(object):
         return cls.n
 
 
+def public_arrays(sh):
+    """(name, array) for every data array a landmark shape exposes (coordinates, connectivity, per-vertex colours,
+    texture coordinates and pixels, adjacency, label masks), in a fixed order."""
+    out = [("points", sh.points)]
+    if hasattr(sh, "trilist"):
+        out.append(("trilist", sh.trilist))
+    if hasattr(sh, "colours"):
+        out.append(("colours", sh.colours))
+    if hasattr(sh, "tcoords"):
+        out.append(("tcoords.points", sh.tcoords.points))
+    if hasattr(sh, "texture"):
+        out.append(("texture.pixels", sh.texture.pixels))
+    if hasattr(sh, "adjacency_matrix"):
+        adj = sh.adjacency_matrix
+        out += [("adjacency.data", adj.data), ("adjacency.indices", adj.indices), ("adjacency.indptr", adj.indptr)]
+    if isinstance(sh, LabelledPointUndirectedGraph):
+        for lab in sh.labels:
+            out.append(("mask:" + lab, sh._labels_to_masks[lab]))
+    return out
+
+
 def model_value(shape_obj):
     """Model entry: numpy copies of everything that can be edited, plus a fresh identity token."""
-    mv = {"cls": type(shape_obj).__name__, "points": np.array(shape_obj.points, dtype=float, copy=True), "d": int(shape_obj.points.shape[1]),
-          "tok": _Tok.new(), "masks": None}
-    if isinstance(shape_obj, LabelledPointUndirectedGraph):
-        mv["masks"] = [[lab, np.array(shape_obj._labels_to_masks[lab], copy=True)] for lab in shape_obj.labels]
+    mv = {"cls": type(shape_obj).__name__, "d": int(shape_obj.points.shape[1]), "tok": _Tok.new(),
+          "arrays": OrderedDict((nm, np.array(a, copy=True)) for nm, a in public_arrays(shape_obj)),
+          "labels": list(shape_obj.labels) if isinstance(shape_obj, LabelledPointUndirectedGraph) else None,
+          "root": getattr(shape_obj, "root_vertex", None)}
     return mv
 
 
 def copy_model(model):
     out = OrderedDict()
     for k, mv in model.items():
-        nv = dict(mv, points=mv["points"].copy(), tok=_Tok.new())
-        if mv["masks"] is not None:
-            nv["masks"] = [[lab, m.copy()] for lab, m in mv["masks"]]
-        out[k] = nv
+        out[k] = dict(mv, arrays=OrderedDict((nm, a.copy()) for nm, a in mv["arrays"].items()), tok=_Tok.new())
     return out
 
 
 def differs_from_model(g, mv):
     if type(g).__name__ != mv["cls"]:
         return "class %s, model %s" % (type(g).__name__, mv["cls"])
-    if g.points.shape != mv["points"].shape or not np.array_equal(g.points, mv["points"]):
-        return "points differ from the model (max |diff| %s)" % (float(np.abs(g.points - mv["points"]).max()) if g.points.shape == mv["points"].shape else "shape")
-    if mv["masks"] is not None:
-        if list(g.labels) != [lab for lab, _ in mv["masks"]]:
-            return "labels %r, model %r" % (list(g.labels), [lab for lab, _ in mv["masks"]])
-        for lab, m in mv["masks"]:
-            if not np.array_equal(g._labels_to_masks[lab], m):
-                return "mask of label %r differs from the model" % lab
+    if mv["labels"] is not None and list(g.labels) != mv["labels"]:
+        return "labels %r, model %r" % (list(g.labels), mv["labels"])
+    if getattr(g, "root_vertex", None) != mv["root"]:
+        return "root vertex %r, model %r" % (getattr(g, "root_vertex", None), mv["root"])
+    got = public_arrays(g)
+    if [nm for nm, _ in got] != list(mv["arrays"]):
+        return "data arrays %r, model %r" % ([nm for nm, _ in got], list(mv["arrays"]))
+    for nm, a in got:
+        want = mv["arrays"][nm]
+        if a.shape != want.shape or not np.array_equal(a, want):
+            return "%s differs from the model (%s)" % (nm if not nm.startswith("mask:") else "mask of a label", "max |diff| %s" % float(np.abs(a.astype(float) - want.astype(float)).max()) if a.shape == want.shape and a.size else "shape")
     return None
 
 
 def _build_owner(spec):
     r = np.random.RandomState(spec["seed"])
     k = spec["kind"]
+    ro = spec.get("ro", False)
     if k.startswith("PointCloud"):
-        return PointCloud(np.round(r.rand(4, 3 if k.endswith("3") else 2) * 640) / 64)
-    if k.startswith("TriMesh"):
-        return TriMesh(np.round(r.rand(4, 3 if k.endswith("3") else 2) * 640) / 64, trilist=np.array([[0, 1, 2], [1, 2, 3]]))
-    if k == "Image":
-        return Image(r.rand(2, 5, 6))
-    return MaskedImage(r.rand(1, 5, 6), mask=r.rand(5, 6) > 0.3)
+        ow = PointCloud(np.round(r.rand(4, 3 if k.endswith("3") else 2) * 640) / 64)
+    elif k.startswith("TriMesh"):
+        ow = TriMesh(np.round(r.rand(4, 3 if k.endswith("3") else 2) * 640) / 64, trilist=np.array([[0, 1, 2], [1, 2, 3]]))
+    elif k == "Image":
+        ow = Image(r.rand(2, 5, 6))
+        return ow.from_vector(ow.as_vector(), copy=False) if ro else ow
+    else:
+        ow = MaskedImage(r.rand(1, 5, 6), mask=r.rand(5, 6) > 0.3)
+        if ro:
+            ow.pixels.flags.writeable = False
+            ow.mask.pixels.flags.writeable = False
+        return ow
+    return ow.from_vector(ow.as_vector()) if ro else ow
 
 
 class Slot(object):
@@ -731,29 +1120,120 @@ class Slot(object):
         return None
 
 
-def _edit(shape_obj, r, c, delta, flip):
+def _writable(a):
+    if not a.flags.writeable:
+        a.flags.writeable = True  # the owner of the array re-enables writing
+    return a
+
+
+def _bump(a, name, idx, delta, n_points):
+    _writable(a)
+    if a.dtype == bool:
+        a[idx] = not a[idx]
+    elif a.dtype.kind in "iu":
+        a[idx] = (a[idx] + 1) % n_points if name == "trilist" else a[idx] + 1
+    else:
+        a[idx] += delta
+
+
+def _edit(shape_obj, r, c, delta, flip, which=1):
     """In-place edit of a shape through its arrays; returns a function applying the same edit to a model value."""
     n, d = shape_obj.points.shape
-    r, c = r % n, c % d
-    shape_obj.points[r, c] += delta
+    arrs = [(nm, a) for nm, a in public_arrays(shape_obj) if a.size and not nm.endswith((".indices", ".indptr"))]
+    if which % 3 == 0 and len(arrs) > 1:
+        name, arr = arrs[1 + (which // 3) % (len(arrs) - 1)]
+        idx = np.unravel_index((r * 5 + c) % arr.size, arr.shape)
+    else:
+        name, arr = arrs[0]
+        idx = (r % n, c % d)
+    _bump(arr, name, idx, delta, n)
     flipped = None
     if flip and isinstance(shape_obj, LabelledPointUndirectedGraph):
         for lab in shape_obj.labels:
             m = shape_obj._labels_to_masks[lab]
-            idx = np.flatnonzero(~m)
-            if idx.size:
-                m[idx[0]] = True
-                flipped = (lab, int(idx[0]))
+            idxs = np.flatnonzero(~m)
+            if idxs.size:
+                _writable(m)[idxs[0]] = True
+                flipped = (lab, int(idxs[0]))
                 break
 
     def on_model(mv):
-        mv["points"][r, c] += delta
-        if flipped is not None and mv["masks"] is not None:
-            for lab, m in mv["masks"]:
-                if lab == flipped[0]:
-                    m[flipped[1]] = True
+        _bump(mv["arrays"][name], name, idx, delta, n)
+        if flipped is not None:
+            mv["arrays"]["mask:" + flipped[0]][flipped[1]] = True
 
-    return on_model
+    return name, on_model
+
+
+def _bounds(a):
+    lo = hi = a.__array_interface__["data"][0]
+    for k, st_ in zip(a.shape, a.strides):
+        if st_ < 0:
+            lo += (k - 1) * st_
+        else:
+            hi += (k - 1) * st_
+    return lo, hi + a.itemsize
+
+
+def unit_arrays(kind, obj):
+    """(name, array) of the PUBLIC data arrays of a sharing unit: a landmark shape (public_arrays) or the body of an
+    owner (shape arrays / pixels and mask). Private memo slots are deliberately not looked at: an immutable cache that
+    two copies share is not observable."""
+    if kind == "owner" and isinstance(obj, Image):
+        out = [("pixels", obj.pixels)]
+        if isinstance(obj, MaskedImage):
+            out.append(("mask.pixels", obj.mask.pixels))
+        return out
+    return public_arrays(obj)
+
+
+def sharing_between_units(units):
+    """units: [(kind, label, object)]. Pairs of arrays that share memory between two different units (interval sweep
+    over the byte ranges, confirmed by np.shares_memory): [(kindA, labelA, nameA, kindB, labelB, nameB)]."""
+    ivs = []
+    for ui, (kind, label, obj) in enumerate(units):
+        for nm, b in unit_arrays(kind, obj):
+            if isinstance(b, np.ndarray) and b.size:
+                lo, hi = _bounds(b)
+                ivs.append((lo, hi, ui, nm, b))
+    ivs.sort(key=lambda t: (t[0], t[1], t[2]))
+    hits, active = [], []
+    for iv in ivs:
+        active = [a for a in active if a[1] > iv[0]]
+        for a in active:
+            if a[2] != iv[2] and np.shares_memory(a[4], iv[4]):
+                ua, ub = units[a[2]], units[iv[2]]
+                hits.append((ua[0], ua[1], a[3], ub[0], ub[1], iv[3]))
+        active.append(iv)
+    return hits
+
+
+def check_sharing(slots, detached, ctx, where):
+    """Every stored landmark group owns its memory: no array of a group is shared with another group (of the same or of
+    any other manager), with the data of any owner, or with a value that was assigned / popped."""
+    units, seen = [], set()
+    for si, s in enumerate(slots):
+        m = s.manager
+        if id(m) in seen:
+            continue
+        seen.add(id(m))
+        for nm in list(m):
+            units.append(("group", "slot %d group %r" % (si, nm), m[nm]))
+        if s.owner is not None:
+            units.append(("owner", "slot %d owner data" % si, s.owner))
+    for vi, v in enumerate(detached):
+        units.append(("value", "detached value %d" % vi, v))
+    for ka, la, pa, kb, lb, pb in sharing_between_units(units):
+        kinds = sorted([ka, kb])
+        if kinds == ["value", "value"]:
+            continue  # two caller-side values are the caller's business
+        if kinds == ["group", "group"]:
+            sig = "history.stored_groups_share_memory:"
+        elif "value" in kinds and "group" in kinds:
+            sig = "history.stored_group_shares_memory_with_caller_value:"
+        else:
+            sig = "history.owner_data_shared:"
+        ctx.fail(sig + where, "%s .%s and %s .%s share memory" % (la, pa.split(":")[0], lb, pb.split(":")[0]))
 
 
 def check_invariant(slots, ctx, where):
@@ -786,13 +1266,16 @@ def check_invariant(slots, ctx, where):
             ctx.expect(len(names) != 1, "history.none_key_refused_with_one_group:" + where, "slot %d" % si)
 
 
+STORING_STEPS = ("set", "set_own_group", "copy", "copy_owner", "assign", "clp", "transform", "update", "setdefault")
+
+
 def c_history(case, ctx):
     slots = [Slot(mgr=LandmarkManager())]
     for spec in case["owners"]:
         ow = _build_owner(spec)
         slots.append(Slot(owner=ow, d=ow.n_dims))
     owner_slots = [s for s in slots if s.owner is not None]
-    assigned = []  # shapes that were handed to set(): must stay detached from every manager
+    assigned = []  # shapes that were handed to set() / update() / setdefault() or popped: detached from every manager
     handles = []  # (object returned by get, token of the model value it is)
     pending_assign = False
     pending_copy = False
@@ -807,13 +1290,16 @@ def c_history(case, ctx):
             pool = assigned if k == "mutate_assigned" else handles
             if not pool:
                 continue
+            which = step[6] if len(step) > 6 else 1
             if k == "mutate_assigned":
                 sh = pool[step[1] % len(pool)]
-                _edit(sh, step[2], step[3], step[4], step[5])
+                name, _ = _edit(sh, step[2], step[3], step[4], step[5], which)
+                ctx.event("edited array=%s" % name.split(":")[0])
                 nt = nt or True
             else:
                 sh, tok = pool[step[1] % len(pool)]
-                on_model = _edit(sh, step[2], step[3], step[4], step[5])
+                name, on_model = _edit(sh, step[2], step[3], step[4], step[5], which)
+                ctx.event("edited array=%s" % name.split(":")[0])
                 for s in slots:
                     for mv in s.model.values():
                         if mv["tok"] == tok:
@@ -829,6 +1315,9 @@ def c_history(case, ctx):
                 name = list(model)[(step[4] // 3) % len(model)]
                 ctx.event("set replaces an existing group")
             sh = build_lshape(spec)
+            ctx.event("value class=%s" % type(sh).__name__)
+            if rs.frozen_buffers(sh):
+                ctx.event("value holds read-only arrays (%s)" % spec.get("ro"))
             d_sh = rs.ndigest(sh)
             cur = s.dims()
             try:
@@ -952,7 +1441,7 @@ def c_history(case, ctx):
                 new_slot = Slot(mgr=res)
             nm_model = copy_model(model)
             for mv in nm_model.values():
-                mv["points"] = objs.ref_apply_h(h, mv["points"])
+                mv["arrays"]["points"] = objs.ref_apply_h(h, mv["arrays"]["points"])
             new_slot.model = nm_model
             # transformed coordinates are compared with a tolerance: replace exact model points by the actual ones after
             # checking closeness, so later exact comparisons stay meaningful
@@ -960,15 +1449,154 @@ def c_history(case, ctx):
             if list(rm) == list(nm_model):
                 for nm, mv in nm_model.items():
                     g = rm[nm]
-                    if g.points.shape == mv["points"].shape and close(g.points, mv["points"], rtol=0, atol=1e-9 * (1 + float(np.abs(mv["points"]).max()))):
-                        mv["points"] = g.points.copy()
+                    want = mv["arrays"]["points"]
+                    if g.points.shape == want.shape and close(g.points, want, rtol=0, atol=1e-9 * (1 + float(np.abs(want).max()))):
+                        mv["arrays"]["points"] = g.points.copy()
                     else:
                         ctx.fail("history.transform_moves_groups", "group %r of the transformed result is not the transformed group" % nm)
-                        mv["points"] = g.points.copy() if g.points.shape == mv["points"].shape else mv["points"]
+                        mv["arrays"]["points"] = g.points.copy() if g.points.shape == want.shape else want
             slots.append(new_slot)
             if new_slot.owner is not None:
                 owner_slots.append(new_slot)
             pending_copy = True
+        elif k == "copy_owner":
+            if s.owner is None:
+                new = m.copy()
+                ctx.expect(type(new) is LandmarkManager and new is not m, "history.copy_class", "")
+                slots.append(Slot(mgr=new, model=copy_model(model)))
+            else:
+                d_ow = rs.ndigest(s.owner)
+                new = s.owner.copy()
+                ctx.expect(type(new) is type(s.owner) and new is not s.owner, "history.copy_owner_class", lambda: type(new).__name__)
+                dd = rs.ndiff(d_ow, rs.ndigest(s.owner))
+                ctx.expect(dd is None, "history.copy_owner_mutated_owner", lambda: repr(dd))
+                pd = digest.public_diff(s.owner, new)
+                ctx.expect(pd is None, "history.copy_owner_differs", lambda: pd)
+                new_slot = Slot(owner=new, d=s.d, model=copy_model(model))
+                slots.append(new_slot)
+                owner_slots.append(new_slot)
+            pending_copy = True
+        elif k == "clp":
+            # menpo.base.copy_landmarks_and_path(source, target): "the object who's landmarks ... will be copied"
+            src = owner_slots[step[1] % len(owner_slots)]
+            t = owner_slots[step[2] % len(owner_slots)]
+            src_d = src.dims()
+            try:
+                res = copy_landmarks_and_path(src.owner, t.owner)
+                ok = True
+            except ValueError:
+                ok = False
+            expect_ok = src_d is None or src_d == t.d
+            ctx.expect(ok == expect_ok, "history.copy_landmarks_and_path_dimension_rule", lambda: "%rD landmarks onto a %dD owner: %s" % (src_d, t.d, "accepted" if ok else "refused"))
+            if ok:
+                ctx.expect(res is t.owner, "history.copy_landmarks_and_path_returns_target", "")
+                if src.model:  # a source without landmarks leaves the target's landmarks alone
+                    ctx.expect(t.owner.landmarks is not src.owner.landmarks or t is src, "history.assign_stores_the_manager_itself", "")
+                    t.model = copy_model(src.model)
+                    pending_copy = True
+        elif k == "update":
+            form, items = step[2], step[3]
+            other = slots[step[4] % len(slots)]
+            if form == "manager":
+                om = other.manager
+                seq = [(nm, om[nm]) for nm in other.model]
+                arg, kw, fresh = om, {}, False
+            else:
+                seq = [(nm, build_lshape(spec)) for nm, spec in items]
+                fresh = True
+                if form == "dict":
+                    arg, kw = dict(seq), {}
+                    seq = list(arg.items())
+                elif form == "kwargs":
+                    arg, kw = (), dict(seq)
+                    seq = list(kw.items())
+                else:
+                    arg, kw = list(seq), {}
+            ctx.event("update form=%s items=%d" % (form, min(len(seq), 3)))
+            d_vals = [rs.ndigest(v) for _, v in seq]
+            # MutableMapping.update stores item by item: a refused item (dimension rule) ends it, earlier items stay
+            refused, stored = False, []
+            for nm, v in seq:
+                cur = s.dims()
+                if cur is not None and cur != v.n_dims:
+                    refused = True
+                    break
+                model[nm] = model_value(v)
+                stored.append((nm, v))
+            try:
+                m.update(arg, **kw)
+                ok = True
+            except ValueError:
+                ok = False
+            ctx.expect(ok == (not refused), "history.update_dimension_rule", lambda: "update(%s) with %d items, %d storable: %s" % (form, len(seq), len(stored), "accepted" if ok else "refused"))
+            if refused:
+                ctx.event("update refused part-way")
+            for nm, v in stored:
+                if nm in m:
+                    ctx.expect(m[nm] is not v, "history.update_stores_the_value_itself", "")
+            for (nm, v), dv in zip(seq, d_vals):
+                ctx.expect(rs.ndiff(dv, rs.ndigest(v)) is None, "history.update_mutated_value", "")
+            if fresh:
+                assigned.extend(v for _, v in stored)
+            if stored:
+                pending_assign = True
+        elif k == "setdefault":
+            names = list(model)
+            name = names[(step[4] // 2) % len(names)] if names and step[4] % 2 else step[2]
+            sh = build_lshape(step[3])
+            cur = s.dims()
+            try:
+                got = m.setdefault(name, sh)
+                ok = True
+            except ValueError:
+                ok = False
+            if name in model:
+                ctx.event("setdefault on an existing group")
+                if ctx.expect(ok, "history.setdefault_existing_refused", ""):
+                    # the stored group itself is handed out (like manager[name]); nothing is stored
+                    ctx.expect(got is m[name] and got is not sh, "history.setdefault_existing_returns_other_object", "")
+                    handles.append((got, model[name]["tok"]))
+            else:
+                expect_ok = cur is None or cur == sh.n_dims
+                ctx.expect(ok == expect_ok, "history.setdefault_dimension_rule", lambda: "setdefault %dD group on a manager holding %rD groups: %s" % (sh.n_dims, cur, "accepted" if ok else "refused"))
+                if ok:
+                    # which object is returned is the mapping mixin's business; the STORED value must be an owned copy
+                    model[name] = model_value(sh)
+                    ctx.expect(name in m and m[name] is not sh, "history.setdefault_stores_the_value_itself", "")
+                    assigned.append(sh)
+                    pending_assign = True
+        elif k == "pop":
+            names = list(model)
+            name = names[step[3] % len(names)] if names and step[3] % 3 else step[2]
+            default = ["default"]
+            try:
+                got = m.pop(name, default) if step[4] else m.pop(name)
+                if name in model:
+                    why = differs_from_model(got, model[name]) if isinstance(got, PointCloud) else "not a shape: %r" % (got,)
+                    ctx.expect(why is None, "history.pop_returns_wrong_group", lambda: why)
+                    model.pop(name)
+                    if isinstance(got, PointCloud):
+                        assigned.append(got)  # detached from now on: later edits of it reach no manager
+                else:
+                    ctx.expect(bool(step[4]) and got is default, "history.pop_missing_name_returned", lambda: repr(name))
+            except KeyError:
+                ctx.expect(name not in model and not step[4], "history.pop_keyerror", lambda: "pop(%r%s) with names %r" % (name, ", default" if step[4] else "", list(model)))
+        elif k == "popitem":
+            try:
+                key, got = m.popitem()
+                if ctx.expect(key in model, "history.popitem_unknown_key", lambda: repr(key)):
+                    # which end is popped is not part of the mapping contract: any held item, the rest keeps its order
+                    why = differs_from_model(got, model[key])
+                    ctx.expect(why is None, "history.popitem_returns_wrong_group", lambda: why)
+                    model.pop(key)
+                    assigned.append(got)
+            except KeyError:
+                ctx.expect(len(model) == 0, "history.popitem_keyerror_on_non_empty_manager", "")
+        elif k == "clear":
+            gone = [m[nm] for nm in model]
+            m.clear()
+            model.clear()
+            assigned.extend(gone[:2])
         elif k == "set_wrong_dim":
             cur = s.dims()
             if cur is None:
@@ -996,6 +1624,8 @@ def c_history(case, ctx):
             except ValueError:
                 pass
         check_invariant(slots, ctx, k)
+        if k in STORING_STEPS:
+            check_sharing(slots, assigned, ctx, k)
     ctx.nontrivial(nt)
     ctx.event("slots=%d" % min(len(slots), 8))
 
@@ -1065,9 +1695,11 @@ def c_identity(case, ctx):
 
 CLAUSES = [
     Clause("objects", c_object, s_object, quick=4000, thorough=60000, nt_floor=0.5,
-           rule="one object per case, copy, aliasing queries, sentinel write and 1-3 public mutators on a drawn side"),
-    Clause("histories", c_history, s_history, quick=600, thorough=10000, nt_floor=0.3,
-           rule="landmark-manager histories against an ordered-dict model; non-trivial: mutation after assignment / copy"),
+           rule="one object per case in a drawn read-only state, copy, aliasing queries, write through the base, sentinel write and 1-3 public "
+                "mutators on a drawn side, derived copies (as_non_alignment, pseudoinverse, LazyList map/repeat/+/slice)"),
+    Clause("histories", c_history, s_history, quick=700, thorough=12000, nt_floor=0.3,
+           rule="landmark-manager histories (incl. inherited mapping mutators, owner copies, read-only values) against an ordered-dict model of "
+                "all public arrays + memory-sharing query after every storing step; non-trivial: mutation after assignment / copy"),
     Clause("identity_compose", c_identity, enumerate=enum_identity,
            rule="exhaustive: 7 homogeneous classes x {2-D,3-D} x {before,after} x argument {own copy, original of a copy, fresh}: "
                 "an exact identity composed in place stays independent of its argument"),
